@@ -418,6 +418,51 @@ func checkC16(c *core.Ctx) {
 	for _, t := range []string{"#c\ntype T{f:Int}", "type T{#c\nf:Int #d\n}", "\"\"\"d\"\"\" type T implements A&B @x{f(a:Int=1):[T!]!}", "extend schema @d #c\n"} {
 		addDoc("schema", t)
 	}
+	// mid-size documents (20,002 tokens, more than any plausible built-in default) under the limits that matter:
+	// 0 (unlimited), one below, exactly and one above the count, and a round number below
+	for _, mid := range []struct{ grammar, text string }{
+		{"query", "{" + strings.Repeat(" a", 20000) + " }"},
+		{"schema", strings.Repeat("scalar S ", 10001)},
+	} {
+		tree0, ok0, _, crash0 := parseLimited(mid.grammar, "", mid.text, unlimitedEntry)
+		if crash0 != "" || !ok0 {
+			c.Internal("mid-size %s document does not parse: %s", mid.grammar, crash0)
+			break
+		}
+		entries := []string{"ParseQueryWithTokenLimit"}
+		if mid.grammar == "schema" {
+			entries = []string{"ParseSchemaWithLimit", "ParseSchemasWithLimit"}
+		}
+		for _, entry := range entries {
+			for _, limit := range []int{0, 15000, 20001, 20002, 20003} {
+				lc := &limitCase{Grammar: mid.grammar, Entry: entry, Limit: limit, N: 20002, HasSrc: false, Src: []int{}, OK0: true, Tree0: tree0, Text: fmt.Sprintf("(%s document of 20,002 tokens)", mid.grammar), Srcs: [][]int{}}
+				var crash string
+				lc.Events = captureEvents(func() {
+					lc.Tree, lc.OK, lc.ErrText, crash = parseLimited(mid.grammar, entry, mid.text, limit)
+				})
+				if crash != "" {
+					c.Violation(fmt.Sprintf("%s(20,002-token %s document, limit %d): %s", entry, mid.grammar, limit, crash), map[string]any{"limit": limit, "crash": crash})
+					continue
+				}
+				// (the trees are long: compared here, the specification gets their verdict as two short marks)
+				if lc.OK && lc.Tree != tree0 {
+					lc.Tree, lc.Tree0 = "differs", "unlimited"
+				} else {
+					lc.Tree, lc.Tree0 = "", ""
+					if lc.OK {
+						lc.Tree, lc.Tree0 = "same", "same"
+					}
+				}
+				id++
+				lc.ID = id
+				b, _ := json.Marshal(lc)
+				lines = append(lines, b)
+				events = append(events, int64(len(lc.Events)))
+				cases[id] = lc
+				nontrivial++
+			}
+		}
+	}
 	// several sources in one call: the limit is per source
 	multi := func(texts []string) {
 		var srcs []*ast.Source
